@@ -119,7 +119,8 @@ class Disconnect(Contract):
         return (g.conn == old.g.conn and g.disc >= old.g.disc and g.disc <= old.g.disc + 1 and g.nx == old.g.nx
                 and g.log == old.g.log and g.resps == old.g.resps and g.stream == old.g.stream and g.cnt == old.g.cnt)
     ensures = [no_exchange]
-    raises = {ERR_COMM: Exc(args=[STR_], post=[no_exchange])}
+    def close_was_attempted(g, old): return g.disc == old.g.disc + 1
+    raises = {ERR_COMM: Exc(args=[STR_], post=[no_exchange, close_was_attempted])}
 
 
 # ---- heartbeats: five exchanges under command 0x60, ops UD_VALUE, GET, GET_MESSAGE, APP_HASH, PUBKEY
